@@ -194,6 +194,7 @@ type C18Scan struct {
 	Vars   []string // every package-level variable
 	Writes []string // "func -> var" outside init-time code
 	Escapes []string // "func => var": a reference into package-level state is stored into an object (composite literal, field, element) outside init-time code
+	InstWrites []string // "pkg.Type.field": instance fields written through a receiver / struct-pointer parameter outside constructors
 	Notes  []string
 	Errs   int
 }
@@ -665,6 +666,148 @@ func c18ScanRepo(root string) (*C18Scan, error) {
 			}
 			return true
 		})
+	}
+	// instance state: fields of library struct types that are written after construction, i.e. through the receiver or
+	// a struct-pointer parameter of a function that is not a constructor (New*/new*) and not init-time.  The models
+	// treat Decode/Encode/... as functions of their arguments; state carried in an instance between calls is the
+	// exception that has to be reviewed (scratch buffers that every call resets, configuration setters).
+	{
+		seenIW := map[string]bool{}
+		for _, k := range order {
+			fn := funcs[k]
+			if initTime[fn.name] {
+				continue
+			}
+			nm := fn.decl.Name.Name
+			if strings.HasPrefix(nm, "New") || strings.HasPrefix(nm, "new") {
+				continue
+			}
+			info := fn.pkg.info
+			paramStruct := map[types.Object]string{}
+			for _, po := range fn.params {
+				if po == nil {
+					continue
+				}
+				t := po.Type()
+				if pt, ok := t.Underlying().(*types.Pointer); ok {
+					t = pt.Elem()
+				}
+				if named, ok := t.(*types.Named); ok {
+					if _, isS := named.Underlying().(*types.Struct); isS && named.Obj().Pkg() != nil &&
+						(named.Obj().Pkg().Path() == c18Mod || strings.HasPrefix(named.Obj().Pkg().Path(), c18Mod+"/")) {
+						rel := strings.TrimPrefix(strings.TrimPrefix(named.Obj().Pkg().Path(), c18Mod), "/")
+						if rel == "" {
+							rel = "gozxing"
+						}
+						paramStruct[po] = rel + "." + named.Obj().Name()
+					}
+				}
+			}
+			if len(paramStruct) == 0 {
+				continue
+			}
+			var firstField func(e ast.Expr) (types.Object, string)
+			firstField = func(e ast.Expr) (types.Object, string) {
+				switch x := e.(type) {
+				case *ast.Ident:
+					return info.Uses[x], ""
+				case *ast.ParenExpr:
+					return firstField(x.X)
+				case *ast.StarExpr:
+					return firstField(x.X)
+				case *ast.IndexExpr:
+					return firstField(x.X)
+				case *ast.SliceExpr:
+					return firstField(x.X)
+				case *ast.UnaryExpr:
+					if x.Op == token.AND {
+						return firstField(x.X)
+					}
+				case *ast.SelectorExpr:
+					r, f := firstField(x.X)
+					if r != nil && f == "" {
+						if sel, ok := info.Selections[x]; ok && sel.Kind() == types.FieldVal {
+							return r, x.Sel.Name
+						}
+					}
+					return r, f
+				}
+				return nil, ""
+			}
+			rec := func(e ast.Expr) {
+				r, f := firstField(e)
+				if r == nil || f == "" {
+					return
+				}
+				if tn, ok := paramStruct[r]; ok {
+					key := tn + "." + f
+					if !seenIW[key] {
+						seenIW[key] = true
+						out.InstWrites = append(out.InstWrites, key)
+					}
+				}
+			}
+			ast.Inspect(fn.decl.Body, func(n ast.Node) bool {
+				switch x := n.(type) {
+				case *ast.AssignStmt:
+					if x.Tok != token.DEFINE {
+						for _, l := range x.Lhs {
+							rec(l)
+						}
+					}
+				case *ast.IncDecStmt:
+					rec(x.X)
+				case *ast.RangeStmt:
+					if x.Tok == token.ASSIGN {
+						if x.Key != nil {
+							rec(x.Key)
+						}
+						if x.Value != nil {
+							rec(x.Value)
+						}
+					}
+				case *ast.CallExpr:
+					if id, ok := x.Fun.(*ast.Ident); ok && len(x.Args) > 0 {
+						if _, isB := info.Uses[id].(*types.Builtin); isB && (id.Name == "copy" || id.Name == "delete" || id.Name == "clear") {
+							rec(x.Args[0])
+						}
+					}
+					var callee *types.Func
+					var recv ast.Expr
+					switch f := x.Fun.(type) {
+					case *ast.Ident:
+						callee, _ = info.Uses[f].(*types.Func)
+					case *ast.SelectorExpr:
+						if sel, ok := info.Selections[f]; ok {
+							callee, _ = sel.Obj().(*types.Func)
+							recv = f.X
+						} else {
+							callee, _ = info.Uses[f.Sel].(*types.Func)
+						}
+					}
+					if g := byObj[callee]; g != nil {
+						idx := 0
+						if g.decl.Recv != nil {
+							if recv != nil && g.mutates[0] {
+								rec(recv) // this.f.mutatingMethod()
+							}
+							idx = 1
+						}
+						for i, a := range x.Args {
+							pi := idx + i
+							if pi >= len(g.params) {
+								pi = len(g.params) - 1
+							}
+							if pi >= 0 && g.mutates[pi] {
+								rec(a)
+							}
+						}
+					}
+				}
+				return true
+			})
+		}
+		sort.Strings(out.InstWrites)
 	}
 	sort.Strings(out.Escapes)
 	{
